@@ -178,6 +178,34 @@ func unliteralize(filename string, src []byte) ([]byte, int) {
 		return ok
 	}
 	guards := map[*ast.Expr]ast.Expr{}
+	// pend: the call operands evaluated before the literal in the same statement. Calls are evaluated in lexical
+	// left-to-right order, so each is kept in its place by a temporary assigned just before the unfolded body.
+	var pend []*ast.Expr
+	hoistable := func(e ast.Expr) bool {
+		call, ok := e.(*ast.CallExpr)
+		if !ok || isIIFE(call) {
+			return false
+		}
+		if id, isID := call.Fun.(*ast.Ident); isID {
+			switch id.Name {
+			case "min", "max", "complex", "real", "imag", "panic", "print", "println", "recover", "append", "copy", "delete", "close", "clear":
+				return false
+			}
+		}
+		ok = true
+		ast.Inspect(e, func(n ast.Node) bool {
+			switch x := n.(type) {
+			case *ast.FuncLit:
+				ok = false
+			case *ast.UnaryExpr:
+				if x.Op == token.ARROW {
+					ok = false
+				}
+			}
+			return ok
+		})
+		return ok
+	}
 	var first func(e *ast.Expr) (slot *ast.Expr, simple bool)
 	first = func(e *ast.Expr) (*ast.Expr, bool) {
 		if callFree(*e) {
@@ -230,7 +258,13 @@ func unliteralize(filename string, src []byte) ([]byte, int) {
 			if x.Op == token.LAND || x.Op == token.LOR {
 				// the right operand is evaluated only when the (call-free) left one does not decide: the literal's
 				// body is unfolded under that very condition, its result defaulting to the zero value otherwise
+				n0 := len(pend)
 				s, _ := first(&x.Y)
+				if len(pend) > n0 {
+					// a call that is itself evaluated conditionally cannot be moved in front of the condition
+					pend = pend[:n0]
+					return nil, false
+				}
 				if s != nil {
 					var g ast.Expr = &ast.ParenExpr{X: x.X}
 					if x.Op == token.LOR {
@@ -261,8 +295,15 @@ func unliteralize(filename string, src []byte) ([]byte, int) {
 			}
 			for i := range x.Args {
 				s, simple := first(&x.Args[i])
-				if s != nil || !simple {
+				if s != nil {
 					return s, false
+				}
+				if !simple {
+					if hoistable(x.Args[i]) && !x.Ellipsis.IsValid() && len(x.Args) > 1 {
+						pend = append(pend, &x.Args[i])
+						continue
+					}
+					return nil, false
 				}
 			}
 			return nil, false
@@ -273,8 +314,10 @@ func unliteralize(filename string, src []byte) ([]byte, int) {
 		for k := range guards {
 			delete(guards, k)
 		}
+		pend = nil
 		slot, _ := first(e)
 		if slot == nil {
+			pend = nil
 			return nil, nil
 		}
 		call := (*slot).(*ast.CallExpr)
@@ -531,7 +574,7 @@ func unliteralize(filename string, src []byte) ([]byte, int) {
 			}
 		}
 		if init != nil {
-			if call, lit := iifeOf(*init); call != nil && supported(lit) {
+			if call, lit := iifeOf(*init); call != nil && supported(lit) && len(pend) == 0 {
 				if as, isAssign := (*init).(*ast.AssignStmt); isAssign {
 					pre, results := build(lit, call)
 					for _, p := range pre {
@@ -586,7 +629,14 @@ func unliteralize(filename string, src []byte) ([]byte, int) {
 		if guard != nil && litResultCount(lit) != 1 {
 			return true
 		}
+		hoists := append([]*ast.Expr{}, pend...)
 		pre, results := build(lit, call)
+		for _, h := range hoists {
+			unlitCounter++
+			id := fmt.Sprintf("dvTmp%d", unlitCounter)
+			c.InsertBefore(&ast.AssignStmt{Lhs: []ast.Expr{ast.NewIdent(id)}, Tok: token.DEFINE, Rhs: []ast.Expr{*h}})
+			*h = ast.NewIdent(id)
+		}
 		if guard != nil {
 			// declarations first, the body under the condition that the operand is evaluated at all
 			nres := len(results)
